@@ -247,6 +247,27 @@ def check_call(ctx, call, backend, args, validate=True):
     return "ok"
 
 
+def directed_calls():
+    """Deterministic structural sweep: every non-empty subset of bracketed positions among 1..4 axes of pairwise
+    distinct lengths, for argmax (coordinate output first and last), sum and flip; the non-adjacent diagonal."""
+    import itertools
+    sizes = [2, 3, 4, 5]
+    names = ["a", "b", "c", "d"]
+    for n in range(1, 5):
+        for k in range(1, n + 1):
+            for sub in itertools.combinations(range(n), k):
+                items = [f"[{names[i]}]" if i in sub else names[i] for i in range(n)]
+                keep = [names[i] for i in range(n) if i not in sub]
+                shape = tuple(sizes[:n])
+                e_in = " ".join(items)
+                yield {"op": "argmax", "family": "argfind", "desc": f"{e_in} -> [{k}] {' '.join(keep)}".strip(), "shapes": [shape], "kwargs": {}, "note": ["directed"]}
+                yield {"op": "argmin", "family": "argfind", "desc": f"{e_in} -> {' '.join(reversed(keep))} [{k}]".strip(), "shapes": [shape], "kwargs": {}, "note": ["directed"]}
+                yield {"op": "sum", "family": "reduce", "desc": f"{e_in} -> {' '.join(reversed(keep))}", "shapes": [shape], "kwargs": {}, "note": ["directed"]}
+                yield {"op": "flip", "family": "preserve_shape", "desc": e_in, "shapes": [shape], "kwargs": {}, "note": ["directed"]}
+    for desc, shape in [("a e a d -> a d e", (2, 3, 2, 4)), ("b a c a -> a b c", (3, 2, 4, 2)), ("a b a c -> c b a", (2, 3, 2, 4)), ("a a b a -> b a", (2, 2, 3, 2))]:
+        yield {"op": "id", "family": "id", "desc": desc, "shapes": [shape], "kwargs": {}, "note": ["directed", "diagonal"]}
+
+
 def run(ctx):
     rng = ctx.rng
     n_calls = 350 if ctx.quick else 6000
@@ -260,6 +281,13 @@ def run(ctx):
     ctx.assumptions.append("numpy primitive plans in IR/Prim.lean describe numpy (conformance-tested on this run)")
     if ctx.driver_ok:
         prim_conformance(ctx, n_prim)
+    directed = list(directed_calls())
+    for call in directed:
+        args = gen.make_args(call, rng, "rand")
+        for backend in (None, "numpy.numpylike"):
+            st = check_call(ctx, call, backend, args)
+            ctx.case(sig_of(call, backend), st in ("ok", "DIFF"))
+            ctx.count("directed:" + st)
     for i in range(n_calls):
         call = gen.gen_call(rng)
         mode = "iota" if rng.random() < 0.6 else "rand"
